@@ -18,6 +18,9 @@ RULE = (
     'each loaded column compared bit for bit with the fields="all" load. non-trivial = distinct (tree, cleaned, units, subsamples, request) where at least one column the '
     'requested column is derived from was not itself requested'
 )
+RULE += (
+    ' Added after seeded round 9: the request as a generator / iterator / dict view; an all-columns filtered load against the masked unfiltered load.'
+)
 ASSUMPTIONS = [
     'npstart/npout index columns are re-indexed when subsamples are loaded (documented): they are compared between loads with the same subsample selection only',
     "with cleaned=True the column requested as 'N' or 'N_total' comes back as 'N' holding the cleaned count (documented)",
